@@ -70,3 +70,26 @@ def unit(pid):
             o.pop('cex_raw', None); O.append(o)
     if len(ps) != 3: O.append(core.structural('%s/mader/paths' % pid, False, '%d returning paths' % len(ps), None, 'path-analysis', 'fan, transition cell and constant state'))
     return res
+
+
+def unit_cj():
+    """C02: the Taylor wave of rare() at the documented gamma = 3, in the limit of vanishing cell width: it starts from the Chapman-Jouguet state
+    (u, p, c, rho) = (D/4, p_cj, 3D/4, 16 p_cj/(3 D^2)) at the position that rare() treats as the detonation front (xlab = 0) and joins the constant piston state at its tail."""
+    res = {'obligations': [], 'functions': [{'ref': REF, 'sha256_16': R.source_hash(R.func_ref(REF))}], 'engine_errors': []}; O = res['obligations']
+    hy = [t > 0, dx > 0, p > 0, d > 0, up > -d / 2, up <= d / 4]
+    try: ps = [q for q in extract.run_function(REF, [t, x, dx, p, d, sp.Integer(3), up], hyps=hy) if q.outcome == 'return']
+    except Unsupported as u_:
+        O.append(core.Obl('C02/mader/extraction', 'open', 'extraction', 0.0, detail=str(u_)[:300])); return res
+    xdet = d * t - x; um = -d / 4; xp = 2 * t * (up - um)
+    fan = [q for q in ps if smt.valid(hy + list(q.pc), sp.And(sp.Abs(xdet - xp) > dx / 10, xdet > xp))[0] is True]
+    O.append(core.structural('C02/mader/fan_path', len(fan) == 1, '%d fan paths' % len(fan), None, 'path-analysis', 'exactly one path of rare() serves the interior of the Taylor wave'))
+    if len(fan) != 1: return res
+    vals = dict(zip(('u', 'p', 'c', 'rho'), [sp.sympify(v) for v in fan[0].value[:4]]))
+    lim = {n: sp.limit(v, dx, 0) for n, v in vals.items()}
+    K = 1 + (up - d / 4) / (3 * d / 4); rcj = sp.Rational(16, 3) * p / d ** 2
+    cj = {'u': d / 4, 'p': p, 'c': 3 * d / 4, 'rho': rcj}; const = {'u': up, 'p': p * K ** 3, 'c': 3 * d / 4 * K, 'rho': rcj * K}
+    for n in vals:
+        O.append(core.prove_zero('C02/mader/head:%s=CJ' % n, lim[n].subs(x, 0) - cj[n], hy, goal_text='%s at the head of the Taylor wave (cell width -> 0) is the Chapman-Jouguet value' % n))
+        O.append(core.prove_zero('C02/mader/tail:%s=constant_state' % n, lim[n].subs(x, d * t - xp) - const[n], hy, goal_text='%s at the tail of the Taylor wave (cell width -> 0) joins the constant piston state' % n))
+    for o in O: o.pop('cex_raw', None)
+    return res
